@@ -83,12 +83,29 @@ def outside_contract(h, tasks):
     return bad
 
 
+def through_host(h, tasks):
+    """the discipline of the safe streams (GPUSpec.through_host): task-class API, every device write with PUSHOUT, a tile written
+    by a device task is written by a CPU task before a device task names it again"""
+    if h["direct"]:
+        return False
+    pend = set()
+    for place, fl in tasks:
+        if place == 0:
+            pend -= {d for d, mo, _ in fl if mo != "r"}
+        else:
+            for d, mo, po in fl:
+                if d in pend or (mo != "r" and not po):
+                    return False
+            pend |= {d for d, mo, _ in fl if mo != "r"}
+    return True
+
+
 class C43(Check):
     id = "C43"
     prop_file = "theories/Properties/Properties_C43.v"
-    theorems = ("C43_eviction_spares_busy_copies", "C43_reserve_evicts_only_clean_idle", "C43_capacity_respected",
-                "C43_reads_see_last_writer_partial", "C43_reads_see_last_writer_refuted",
-                "C43_stage_in_source_newest_refuted", "C43_newest_version_kept_refuted")
+    theorems = ("C43_eviction_victim_idle_clean", "C43_reserve_spares_busy_and_dirty", "C43_capacity_respected",
+                "C43_stage_in_moves_source_value", "C43_reads_see_last_writer_refuted", "C43_newest_version_kept_refuted",
+                "C43_stage_in_source_newest_refuted", "C43_reads_refuted_stale_shared", "C43_reads_refuted_cpu_direct")
     comp = "gpu"
     extract_file = "theories/Extract/Extract_GPU.v"
     extracted = ("gpu",)
@@ -99,21 +116,25 @@ class C43(Check):
     level_text = (
         "Executable Gallina model of parsec_device_data_reserve_space / data_stage_in / callback_complete_push / kernel_pop / "
         "kernel_epilog on top of the C26 model of parsec_data_*transfer_ownership*, with device memory of cap tiles, the clean and "
-        "dirty LRU lists, reader counts and memory contents. Proved for every state, task, capacity and number of devices: the "
-        "reservation pass evicts only copies taken from the clean list with no reader and not named by an earlier flow of the "
-        "running task, never a copy of the dirty list, and never exceeds the capacity; for all task sequences obeying the "
-        "'through the host' discipline every read sees the last writer (partial). The full statement is refuted in the faithful "
-        "model (stale owner after eviction, read by the owner demotes a dirty copy which is then evicted, input copy of a later "
-        "inserted task is the stale host copy, older SHARED copy on a third device) and every witness is replayed on the real "
-        "code. Tie: a mock device module (host memory, deferred streams) registered into the real runtime drives real DTD tasks "
-        "through the real parsec_device_kernel_scheduler; copy-by-copy state after every task is compared with the model "
-        "(one task in flight), values only when several tasks are in flight. Partial.")
+        "dirty LRU lists, reader counts and memory contents. PROVED for every state, task, capacity and number of devices: the "
+        "reservation pass evicts only copies popped from the clean list, with no reader, that no earlier flow of the running task "
+        "names; copies with readers, copies outside the clean list (dirty list, copies held by running tasks) and the copies of "
+        "all flows of the task survive it; for every task sequence no device ever holds more copies than its zone has tiles. "
+        "REFUTED in the faithful model, each witness replayed on the real code (5 finding classes): 'reads see the last writer', "
+        "'the stage-in source holds the newest version', 'the newest version is never lost'. No positive theorem on values: the "
+        "'through the host' discipline under which the unchanged code is right (GPUSpec.through_host) is exercised by the "
+        "differential run and the oracle only. Tie: a mock device module (host memory, deferred streams, poisoned re-allocated "
+        "tiles) registered into the real runtime drives real DTD tasks through the real parsec_device_kernel_scheduler; the "
+        "state of every copy and list after every task is compared with the model (one task in flight), values only when "
+        "several tasks are in flight. Partial.")
     level_note = (
-        "Trusted: the mock module and its poisoning of re-allocated tiles, a private libparsec build with "
-        "-DPARSEC_HAVE_DEV_LEVEL_ZERO_SUPPORT (enables parsec_dtd_gpu_task_submit; device_gpu.c and transfer_gpu.c are "
-        "#included by the harness), interposition of parsec_mca_device_registration_complete. The model is sequential in "
-        "tasks (data_in = host copy); multi-task pipelines, w2r write-back tasks, prefetch, batching, PTG and real hardware "
-        "streams are outside the model and only exercised by the value oracle.")
+        "Trusted: the mock module, a private libparsec build with -DPARSEC_HAVE_DEV_LEVEL_ZERO_SUPPORT (enables the body of "
+        "parsec_dtd_gpu_task_submit; device_gpu.c and transfer_gpu.c are #included by the harness), ELF interposition of "
+        "parsec_mca_device_registration_complete. The model is sequential in tasks (data_in = host copy, reference count of "
+        "copies not modelled); pipelines of several tasks, w2r write-back tasks (unreachable on the unchanged tree, finding "
+        "dirty-full-livelock), prefetch, batching, PTG-generated code and real hardware streams are outside the model and are "
+        "only exercised by the value oracle. On the unchanged tree the check reports 5 known classes of failing inputs "
+        "(notes/findings/C43-*.md) until they are listed in KNOWN_FINDINGS.txt.")
     technique = ("Coq proof (invariants of the executable device-memory model) + differential run of the real device_gpu.c, "
                  "driven by a mock device module through real DTD tasks, against the extracted model; sequential value oracle")
     rule = ("task sequences <= 40 tasks over <= 8 tiles on 1-2 mock devices of 2-6 tiles: 'safe' streams obey the "
@@ -367,23 +388,38 @@ class C43(Check):
         return v[0] if v else None
 
     def signature(self, case, obs):
+        """names the class of a failing input by the history of the tile read wrongly (since its last CPU task-class write)"""
         v = self.verdict(case, obs)
         if not v:
             return "none"
         h, tasks = parse_case(case)
         why, tid, d, kind = v
         if kind == "hang":
-            return "dirty-full-livelock"
-        if kind in ("noobs", "runs", "pointer"):
+            return "dirty-full-livelock" if not through_host(h, tasks) else "disciplined-hang"
+        if through_host(h, tasks):
+            # the unchanged tree is right on every such program: never a known class
+            return "disciplined-" + kind
+        if kind in ("noobs", "runs", "pointer") or d is None:
             return kind
-        pre = tasks[:tid + 1] if tid >= 0 else tasks
-        if h["direct"] and any(p == 0 and any(mo != "r" for _, mo, _ in fl) for p, fl in pre):
+        hist = []                                # accesses to tile d before the failing read: (place, mode, pushout)
+        for k, (p, fl) in enumerate(tasks[:max(tid, 0)] if tid < len(tasks) else tasks):
+            for dd, mo, po in fl:
+                if dd == d:
+                    if p == 0 and mo != "r" and not h["direct"]:
+                        hist = []
+                    else:
+                        hist.append((p, mo, po))
+        if h["direct"] and any(p == 0 and mo != "r" for p, mo, _ in hist):
             return "cpu-direct-write"
-        if any(p != 0 and any(mo != "r" and not po for _, mo, po in fl) for p, fl in pre):
+        if any(p != 0 and mo != "r" and not po for p, mo, po in hist):
             return "write-without-pushout"
-        if len({p for p, _ in pre if p}) > 1:
+        reader = tasks[tid][0] if 0 <= tid < len(tasks) else 0
+        writers = [p for p, mo, _ in hist if p != 0 and mo != "r"]
+        if kind == "P" or (writers and writers[-1] == reader):
+            return "stale-owner-restage"
+        if writers:
             return "stale-shared-copy"
-        return "stale-owner-restage"
+        return "stale-other"
 
     def search_cases(self):
         r = vcheck.Rng(self.seed * 7919 + 13)
